@@ -36,7 +36,9 @@ RtPreds(e) ==
               Iff(\E f \in DOMAIN e.rt : ~e.rt[f], "C15_roundtrip")))
 
 Step == /\ l <= Len(Log) /\ l' = l + 1
-        /\ LET e == Log[l] IN Report(l, IF e.ev = "Decode" THEN DecodePreds(e) ELSE RtPreds(e), e.scen)
+        /\ LET e == Log[l] IN Report(l, IF e.ev = "Decode" THEN DecodePreds(e)
+                                         ELSE IF e.ev = "Hang" THEN {"C15_terminates"}   \* a call of the code did not return within 10 s
+                                         ELSE RtPreds(e), e.scen)
 Next == Step
 Spec == Init /\ [][Next]_vars
 Consumed == /\ TLCGet("stats").diameter - 1 = Len(Log)
